@@ -3,6 +3,7 @@ Spec: Mpi.tla (parallel state machine, two collectives per iteration; invariants
 freedom), Split.tla, Trace_C04 (per-rank machines fed with the merged event log, compared with the serial run)."""
 import os
 import vt
+import mpicommon
 
 LEVEL = "model_checking"
 BUILDS = [(("drv_c04", ["drv_c04.cpp"]), {"flags": ["-O0", "-I" + os.path.join(vt.HARNESS, "mpishim")]}),
@@ -105,6 +106,9 @@ def real_mpi(chk, nps=(1, 2, 3, 5)):
 
 
 def run(chk, replay=None):
+    if replay and "big" in os.path.basename(replay):
+        mpicommon.big_leg(chk, "C04:mpi", replay)
+        return
     thorough = chk.tier == "thorough"
     chk.cov["checker_cmd"] = "tlc MC_Mpi (8-12 configurations, deadlock check on); tlc Trace_C04 (TRACE=out/C04/trace.ndjson)"
     chk.cov["trusted_base"] = ["TLC", "MPI shim: ranks are threads, Allreduce = rendezvous + sum in a seeded permutation of ranks, seeded arrival perturbation, structural "
@@ -132,6 +136,8 @@ def run(chk, replay=None):
         bad = rows[matched] if matched < len(rows) else None
         ctx = [r for r in rows[:matched + 1] if r["e"] == "MRun"][-1:]
         chk.violation("C04:mpi", trace, "event %d rejected by Trace_C04: %s in run %s" % (matched + 1, str(bad)[:300], str(ctx)[:400]))
+    if thorough and ok and not replay:
+        ok = mpicommon.big_leg(chk, "C04:mpi")
     if ok and not replay:
         real_mpi(chk, (1, 2, 3, 5) if thorough else (2,))
     if thorough and ok and not replay:
